@@ -1,0 +1,25 @@
+//go:build !verif
+
+// Package verifhook holds the seams used by the deterministic-simulation
+// harness kept outside this repository. Without the "verif" build tag every
+// function here is empty and inlined away, so the shipped behaviour is
+// unchanged.
+package verifhook
+
+import (
+	"io"
+	"net/http"
+)
+
+// Enabled reports whether the hooks are compiled in.
+const Enabled = false
+
+func Yield(point string, inst interface{})                              {}
+func YieldN(point string, inst interface{}, n int)                      {}
+func Lock(point string, inst interface{})                               {}
+func Unlock(point string, inst interface{})                             {}
+func Event(kind string, inst interface{}, oid string, a ...interface{}) {}
+func Crash(point string)                                                {}
+func Transport(scheme, host string) http.RoundTripper                   { return nil }
+func WrapReader(r io.Reader) io.Reader                                  { return r }
+func WrapWriter(w io.Writer) io.Writer                                  { return w }
